@@ -130,10 +130,12 @@ class EventDispatcher:
         if not value:
             return
 
-        # Deplete queue if enabling
-        for event_name, args, kwargs in self._event_queue:
+        # Deplete queue if enabling. Events leave the queue before being
+        # dispatched, so that an event is never dispatched twice, even if
+        # a callback raises. Stop if a callback disables dispatching again
+        while self._event_queue and self._dispatch_enabled:
+            event_name, args, kwargs = self._event_queue.pop(0)
             self.dispatch(event_name, *args, **kwargs)
-        self._event_queue.clear()
 
     def clear(self):
         """Remove all handlers and pending events.
